@@ -110,6 +110,8 @@ func rtBuild(x *rtCtx, op Op, src map[interface{}]int, errs *[]string) string {
 		}
 		mark(0)
 	}
+	// ps: serialise the document (result discarded) between the constructor of an element and its setters
+	ps, _ := op["ps"].(bool)
 	els, _ := op["els"].([]interface{})
 	for i, e := range els {
 		m, _ := e.(map[string]interface{})
@@ -129,6 +131,9 @@ func rtBuild(x *rtCtx, op Op, src map[interface{}]int, errs *[]string) string {
 		if r != "ok" {
 			return r + ":" + c
 		}
+		if ps {
+			x.doc.ToBytes()
+		}
 		for _, f := range fs {
 			fn, ok := rtFeats[f]
 			if !ok {
@@ -146,6 +151,9 @@ func rtBuild(x *rtCtx, op Op, src map[interface{}]int, errs *[]string) string {
 		mark(i + 1)
 	}
 	if !early {
+		if ps {
+			x.doc.ToBytes()
+		}
 		if r := applySect(); r != "ok" {
 			return r
 		}
